@@ -97,7 +97,7 @@ def run(res, b, tier, seed):
             import semprop
             for prop in ("C01", "C02", "C03", "C04", "C07", "C10"):
                 for name, j in semprop.load_corpus(prop):
-                    cases.append(pipeline.Case("c-%s-%s" % (prop, name), {"main.tsh": j["src"].encode()},
+                    cases.append(pipeline.Case("c-%s-%s" % (prop, name), semprop.corpus_files(j),
                                                meta=dict(src=j["src"], expected_out="".join(l + "\n" for l in j["stdout"]), expected_status=j["status"], case_clash=False,
                                                          corpus=True, **flags)))
         pipeline.run_pipe(b, cases, "w")
